@@ -8,7 +8,7 @@ from symv.named import N, Raised, Surprise
 
 META = {
     "level": "exploration",
-    "level_text": "Offline checker over a recorded history of routes through one network: for each generated network of 2-4 fermionic tensors (chains, triangles, cycles with chords, dangling legs, conjugated and multi-label operands, distinct labels) the library contracts it along many random routes (contraction order, operand order, listing order of contracted pairs, pre-transposes, all-at-once vs tensordot+einsum, mode) and every route must give exactly the same canonical-order value and the same remaining labels; all routes are also compared with an independent GradedDense evaluation of the whole network, so a consistent-but-wrong sign convention is caught too. Later additions: bra-ket networks, pairs sharing 6-8 bonds, routes through the @ operator, tensors of >= 2**22 dense elements, labels from a range symmetric about zero, library conj of already-hashed indices.",
+    "level_text": "Offline checker over a recorded history of routes through one network: for each generated network of 2-4 fermionic tensors (chains, triangles, cycles with chords, dangling legs, conjugated and multi-label operands, distinct labels) the library contracts it along many random routes (contraction order, operand order, listing order of contracted pairs, pre-transposes, all-at-once vs tensordot+einsum, mode) and every route must give exactly the same canonical-order value and the same remaining labels; all routes are also compared with an independent GradedDense evaluation of the whole network, so a consistent-but-wrong sign convention is caught too. Later additions: bra-ket networks, pairs sharing 6-8 bonds, routes through the @ operator, tensors of >= 2**22 dense elements, labels from a range symmetric about zero, library conj of already-hashed indices. Round 9: user-defined symmetries.",
     "technique": "runtime monitoring: offline history checker (route independence) + reference-model anchor (graded tensor network evaluation)",
     "rule": (
         "one evaluation = one complete route through one network, compared with the graded-model value and with the other routes of the same network. "
